@@ -902,7 +902,9 @@ def _parse_schema(
 
         # Check if this schema was involved in any detected cycles and mark it accordingly
         # This must happen before returning the schema
-        if schema_name:
+        # When self references are allowed the schema has been parsed completely and registered: it is a real model
+        # whose re-entrant references got placeholders, so it must not be flagged as an unresolved circular stub.
+        if schema_name and not allow_self_reference:
             for cycle_info in context.unified_cycle_context.detected_cycles:
                 if (
                     cycle_info.cycle_path
